@@ -161,7 +161,15 @@ func init() {
 			d = rd
 		}
 		_ = os.MkdirAll(filepath.Join(d, string(a[0])), 0o755)
-		for _, r := range a[1:] {
+		for i, r := range a[1:] {
+			if i%2 == 1 {
+				// every second marker is a symbolic link to a directory kept elsewhere: it marks a root like a directory does
+				_ = os.MkdirAll(filepath.Join(d, string(r)), 0o755)
+				_ = os.MkdirAll(filepath.Join(d, ".markers", strconv.Itoa(i)), 0o755)
+				if os.Symlink(filepath.Join(d, ".markers", strconv.Itoa(i)), filepath.Join(d, string(r), "regex-assembly")) == nil {
+					continue
+				}
+			}
 			_ = os.MkdirAll(filepath.Join(d, string(r), "regex-assembly"), 0o755)
 		}
 		root, err := cmd.VerifFindRootDirectory(filepath.Join(d, string(a[0])))
@@ -333,6 +341,28 @@ func oracleC12CLI(p *Pair, env *Env, a [][]byte) *Failure {
 	after3, _ := os.ReadFile(filepath.Join(sb, rulesRel))
 	if rep.exit != 0 || !bytes.Equal(after3, after1) {
 		return &Failure{What: "update does not restore the generated regex after the stored operand was edited", Detail: fmt.Sprintf("exit %d\nafter first update %q\nafter repair %q", rep.exit, after1, after3)}
+	}
+	// the assembly file behind a symbolic link (two rules sharing one source, a sandboxed checkout): --all brings the rule
+	// up to date like the single invocation does
+	{
+		_ = os.WriteFile(filepath.Join(sb, rulesRel), content, 0o644)
+		src2 := filepath.Join(sb, "regex-assembly", arg+".ra")
+		_ = os.MkdirAll(filepath.Join(sb, "shared"), 0o755)
+		if os.Rename(src2, filepath.Join(sb, "shared", "source.data")) == nil {
+			_ = os.Symlink(filepath.Join("..", "shared", "source.data"), src2)
+			upAll := runCLI(env, sb, nil, "-l", "disabled", "regex", "update", "-a")
+			afterAll, _ := os.ReadFile(filepath.Join(sb, rulesRel))
+			rdA := p.Impl(Op{"update.read", [][]byte{afterAll, []byte(id), bytes.Repeat([]byte{'x'}, k)}}, env.timeout)
+			if upAll.exit == 0 && (rdA.Status != "ok" || !bytes.Equal(rdA.Out[0], gen.stdout)) && !bytes.Contains(gen.stdout, []byte(`\x5c"`)) {
+				return &Failure{What: "update --all exits 0 but the rule whose assembly file is a symbolic link does not hold the generated regex", Detail: fmt.Sprintf("generate %q stored %s", gen.stdout, rdA.String())}
+			}
+			if !bytes.Equal(afterAll, after1) && upAll.exit == 0 && !bytes.Contains(gen.stdout, []byte(`\x5c"`)) {
+				return &Failure{What: "update --all over a symlinked assembly file leaves other bytes than the single invocation", Detail: fmt.Sprintf("single %q\nall %q", after1, afterAll)}
+			}
+			_ = os.Remove(src2)
+			_ = os.Rename(filepath.Join(sb, "shared", "source.data"), src2)
+			_ = os.WriteFile(filepath.Join(sb, rulesRel), after3, 0o644)
+		}
 	}
 	// the same with text put IN FRONT of the stored operand (the generated regex is then a suffix of what is stored)
 	lines = bytes.Split(after3, []byte("\n"))
